@@ -42,6 +42,25 @@ type sfCall struct {
 	Off      int64
 	N        int
 	Err      string
+	Parsed   string // Setstat: what Request.AttrFlags() / Request.Attributes() gave the handler (flagged fields only)
+}
+
+// sfParsed renders the flagged attributes the way both sides of the comparison do.
+func sfParsed(size, perm, ids, times bool, sz uint64, mode, uid, gid, atime, mtime uint32) string {
+	out := ""
+	if size {
+		out += fmt.Sprintf(" size=%d", sz)
+	}
+	if ids {
+		out += fmt.Sprintf(" owner=%d:%d", uid, gid)
+	}
+	if perm {
+		out += fmt.Sprintf(" mode=%o", mode)
+	}
+	if times {
+		out += fmt.Sprintf(" times=%d,%d", atime, mtime)
+	}
+	return out
 }
 
 type sfObj struct {
@@ -147,7 +166,21 @@ func (fs *sfs) recordReq(method string, r *Request) error {
 }
 
 func (fs *sfs) reqCall(method string, r *Request) sfCall {
-	return sfCall{Method: method, ReqMeth: r.Method, Filepath: r.Filepath, Target: r.Target, Flags: r.Flags, Attrs: append([]byte(nil), r.Attrs...)}
+	c := sfCall{Method: method, ReqMeth: r.Method, Filepath: r.Filepath, Target: r.Target, Flags: r.Flags, Attrs: append([]byte(nil), r.Attrs...)}
+	if r.Method == "Setstat" {
+		// like a real handler, look at the attributes through the accessors
+		fl := r.AttrFlags()
+		if a := r.Attributes(); a != nil {
+			c.Parsed = sfParsed(fl.Size, fl.Permissions, fl.UidGid, fl.Acmodtime, a.Size, a.Mode, a.UID, a.GID, a.Atime, a.Mtime)
+		} else {
+			c.Parsed = "<nil>"
+		}
+	} else if method == "OpenFile" || method == "Fileread" || method == "Filewrite" {
+		if len(r.Attrs) == 0 {
+			r.Attributes() // (a handler that looks at the attributes of an open as well; value not compared: known finding)
+		}
+	}
+	return c
 }
 
 func (fs *sfs) gate(cmd bool, key string) {
